@@ -45,10 +45,26 @@ int32 g_i;
    5 GB / 100 s here).  The exact WRITE frame is still enforced by the assigns clause; exact
    object sizes (over-reads too) are used in the *_exact obligations, in counterexample mode
    and in the native replay. */
-#if defined(GR_CAPBUF) && defined(H4V_CBMC) && !defined(H4V_CEX)
+#if defined(GR_CAPBUF) && defined(H4V_CBMC)
 #define GR_BUFSZ(total) GR_CAP
 #else
 #define GR_BUFSZ(total) (total)
+#endif
+/* buffer with arbitrary contents.  Counterexample mode: the named element values come from one
+   nondet struct and are copied without a loop (a global --unwind 56 for H4V_ND_BUF's loop would
+   also unwind the triple loop nest of GRIil_convert 56^3 times). */
+#if defined(H4V_CBMC) && defined(H4V_CEX)
+#define GR_ND_BUF(T, p, n, CAP)                                                                      \
+    T *p = malloc((size_t)GR_BUFSZ(n) * sizeof(T));                                                  \
+    __CPROVER_assume(p != NULL);                                                                     \
+    struct h4v_nb_##p { T a[CAP]; };                                                                 \
+    struct h4v_nb_##p nondet_h4v_nb_##p(void);                                                       \
+    struct h4v_nb_##p p##_nd = nondet_h4v_nb_##p();                                                  \
+    memcpy(p, p##_nd.a, (size_t)(n) * sizeof(T))
+#elif defined(H4V_CBMC)
+#define GR_ND_BUF(T, p, n, CAP) H4V_ND_BUF(T, p, GR_BUFSZ(n), CAP)
+#else
+#define GR_ND_BUF(T, p, n, CAP) H4V_ND_BUF(T, p, n, CAP)
 #endif
 
 int GRIil_convert(const void *inbuf, gr_interlace_t inil, void *outbuf, gr_interlace_t outil, int32 dims[2], int32 ncomp, int32 nt)
@@ -122,8 +138,8 @@ h_GRIil_convert(void)
     dims[0]     = xdim;
     dims[1]     = ydim;
     int32 total = xdim * ydim * ncomp * g_csize;
-    H4V_ND_BUF(uint8, inb, GR_BUFSZ(total), GR_CAP);
-    H4V_ND_BUF(uint8, outb, GR_BUFSZ(total), GR_CAP);
+    GR_ND_BUF(uint8, inb, total, GR_CAP);
+    GR_ND_BUF(uint8, outb, total, GR_CAP);
     H4V_ASSUME(g_i >= 0 && g_i < total);
     uint8 old_i = outb[g_i];
     int   r     = GRIil_convert(inb, inil, outb, outil, dims, ncomp, nt);
@@ -164,13 +180,13 @@ h_il_roundtrip(void)
     dims[0]     = xdim;
     dims[1]     = ydim;
     int32 total = xdim * ydim * ncomp * g_csize;
-    H4V_ND_BUF(uint8, inb, GR_BUFSZ(total), GR_CAP);
-    H4V_ND_BUF(uint8, midb, GR_BUFSZ(total), GR_CAP);
-    H4V_ND_BUF(uint8, outb, GR_BUFSZ(total), GR_CAP);
+    GR_ND_BUF(uint8, rt_in, total, GR_CAP);
+    GR_ND_BUF(uint8, rt_mid, total, GR_CAP);
+    GR_ND_BUF(uint8, rt_out, total, GR_CAP);
     H4V_ASSUME(g_i >= 0 && g_i < total);
-    int r1 = GRIil_convert(inb, ila, midb, ilb, dims, ncomp, nt);
-    int r2 = GRIil_convert(midb, ilb, outb, ila, dims, ncomp, nt);
-    H4V_CHECK(!(r1 == SUCCEED && r2 == SUCCEED) || outb[g_i] == inb[g_i],
+    int r1 = GRIil_convert(rt_in, ila, rt_mid, ilb, dims, ncomp, nt);
+    int r2 = GRIil_convert(rt_mid, ilb, rt_out, ila, dims, ncomp, nt);
+    H4V_CHECK(!(r1 == SUCCEED && r2 == SUCCEED) || rt_out[g_i] == rt_in[g_i],
               "il round trip: convert(B->A) after convert(A->B) is the identity");
     H4V_COVER(r1 == SUCCEED && r2 == SUCCEED && ila != ilb, "roundtrip both succeed");
     H4V_COVER(r1 == SUCCEED && r2 == SUCCEED && ila == MFGR_INTERLACE_LINE && ilb == MFGR_INTERLACE_COMPONENT, "roundtrip line/component");
